@@ -470,7 +470,8 @@ PROPS = {
         theorems=["Exmex.C14.evalBinary_word_any_order", "Exmex.C14.evalBinary_words_any_order", "Exmex.C14.evalNumbers_any_order"],
         level_text=("kernel-checked: evalBinary_word_any_order / evalBinary_words_any_order / evalNumbers_any_order - for every duplicate-free order of the operators and every number of operands, the single-word and the multi-word bit tracker find exactly the neighbouring unconsumed operands (refinement of the bit trackers to a list of flags); the choice of tracker by the public evaluation path is exercised at the word boundaries at run time"),
         rule="eval_binary through the hook: all 46233 orders of 1..8 operators (exhaustive), structured and random orders for 3..1000 operands incl. both sides of 64/128/192/256; NumberTracker (usize, [usize] of 1..5 words) driven with random legal get_previous/get_next/ignore sequences; non-trivial = at least 3 operands / at least one query; distinct by request hash",
-        kinds=[dict(kind="flat", quick=3000, thorough=60000, args=["sizes"], corr=["wo", "vars"],
+        kinds=[dict(kind="bigeval", quick=48, thorough=600, no_model=True, corr=[], oracle_const=[("r", "ok")], nontrivial=always),
+               dict(kind="flat", quick=3000, thorough=60000, args=["sizes"], corr=["wo", "vars"],
                     oracle=[("wo_nf", "spec_nf"), ("c_nf", "spec_nf"), ("wcons_nf", "spec_nf")], guards=["render", "toks"], nontrivial=flat_nontrivial),
                
             dict(kind="orderx", quick=46233, thorough=46233, single=True, corr=["w", "ws"], oracle=[("w", "spec"), ("ws", "spec")], nontrivial=order_nontrivial),
